@@ -55,6 +55,8 @@ package caskettls
 //@   pure
 
 //@ define nm() string = normalizedName(hello.ServerName)
+//@ extern (*crypto/tls.Config).Clone
+//@   ensures result != nil
 //@ func (configGroup).getConfig
 //@   requires hello != nil && cg != nil && forallT(k, string, has(cg, k) ==> cg[k] != nil)
 //@   ensures [exact_first] (nm() != "" && has(cg, nm())) ==> result == cg[nm()]
